@@ -37,6 +37,7 @@ pub struct Features {
     pub slow_answers: bool,
     pub diverger: bool,
     pub empty_pred: bool,
+    pub builtins: bool,
 }
 
 fn constant(rng: &mut Rng) -> Term {
@@ -76,7 +77,7 @@ fn pick_arg(rng: &mut Rng, scope: &mut Vec<String>, fresh_ok: bool) -> Term {
 
 fn gen_leaf(rng: &mut Rng, ctx: &Ctx, callable: &[Pred], scope: &mut Vec<String>, allow_cut: bool) -> GoalSpec {
     let f = &ctx.feats;
-    // weights: call, unify, cmp, print, nl, cut, fail, mem
+    // weights: call, unify, cmp, print, nl, cut, fail, mem, count, append, print_list
     let w = [
         if callable.is_empty() { 0 } else { 10 },
         2,
@@ -86,6 +87,9 @@ fn gen_leaf(rng: &mut Rng, ctx: &Ctx, callable: &[Pred], scope: &mut Vec<String>
         if f.cut && allow_cut { 3 } else { 0 },
         1,
         if f.lists { 2 } else { 0 },
+        if f.builtins { 1 } else { 0 },
+        if f.builtins { 1 } else { 0 },
+        if f.builtins && f.print { 1 } else { 0 },
     ];
     match rng.weighted(&w) {
         0 => {
@@ -126,13 +130,35 @@ fn gen_leaf(rng: &mut Rng, ctx: &Ctx, callable: &[Pred], scope: &mut Vec<String>
         4 => GoalSpec::Nl,
         5 => GoalSpec::Cut,
         6 => GoalSpec::Fail,
-        _ => {
+        7 => {
             let x = pick_arg(rng, scope, true);
             let n = rng.range(0, 3) as usize;
             let items = (0..n).map(|_| constant(rng)).collect();
             GoalSpec::Call("mem".to_string(), vec![x, Term::List(items, None)])
         }
+        8 => {
+            let n = rng.range(0, 3) as usize;
+            let items = (0..n).map(|_| constant(rng)).collect();
+            let out = if rng.chance(3, 4) { fresh(scope) } else { Term::Int(rng.range(0, 3) as i64) };
+            GoalSpec::BuiltIn("count".to_string(), vec![Term::List(items, None), out])
+        }
+        9 => {
+            let n = rng.range(0, 2) as usize;
+            let items = (0..n).map(|_| constant(rng)).collect();
+            GoalSpec::BuiltIn("append".to_string(), vec![constant(rng), Term::List(items, None), fresh(scope)])
+        }
+        _ => {
+            let n = rng.range(1, 3) as usize;
+            let items = (0..n).map(|_| constant(rng)).collect();
+            GoalSpec::BuiltIn("print_list".to_string(), vec![Term::List(items, None)])
+        }
     }
+}
+
+fn fresh(scope: &mut Vec<String>) -> Term {
+    let name = format!("$V{}", scope.len());
+    scope.push(name.clone());
+    Term::Var(name)
 }
 
 fn gen_goal(rng: &mut Rng, ctx: &Ctx, callable: &[Pred], scope: &mut Vec<String>, depth: usize, allow_cut: bool) -> GoalSpec {
@@ -170,6 +196,7 @@ fn gen_features(family: &str, rng: &mut Rng) -> Features {
         slow_answers: rng.chance(1, 5),
         diverger: rng.chance(1, 5),
         empty_pred: rng.chance(1, 4),
+        builtins: rng.chance(1, 3),
     };
     match family {
         "C05" => {
@@ -378,7 +405,8 @@ fn gen_program(rng: &mut Rng, feats: &Features, allow_diverger: bool) -> (Vec<Cl
                 })
                 .collect()
         };
-        queries.push(QuerySpec { functor: p.name.clone(), args, class: p.class });
+        let via_text = rng.chance(1, 3);
+        queries.push(QuerySpec { functor: p.name.clone(), args, class: p.class, via_text });
     }
     (ctx.clauses, queries)
 }
